@@ -521,6 +521,9 @@ func init() {
 	})
 
 	// ---- time / os / environment: not available ----
+	// environment stub: the run context of the server engine carries OS filesystems and build
+	// data that the engine protocol never consults; it is passed through unchanged
+	reg("github.com/arr-ai/arrai/pkg/arraictx.InitRunCtx", func(fr *frame, a []value) value { return a[0] })
 	reg("time.Now", func(fr *frame, a []value) value { panic(unsupported("time.Now")) })
 	reg("os.Getenv", func(fr *frame, a []value) value { return "" })
 	reg("os.Getwd", func(fr *frame, a []value) value { panic(unsupported("os.Getwd")) })
@@ -537,7 +540,7 @@ func init() {
 	reg("(*sync.WaitGroup).Add", func(fr *frame, a []value) value { return fr.i.wgAdd(a[0].(*value), int(asInt64(a[1]))) })
 	reg("(*sync.WaitGroup).Done", func(fr *frame, a []value) value { return fr.i.wgAdd(a[0].(*value), -1) })
 	reg("(*sync.WaitGroup).Wait", func(fr *frame, a []value) value { return fr.i.wgWait(a[0].(*value)) })
-	reg("sync.NewCond", func(fr *frame, a []value) value { return fr.i.newCond(a[0]) })
+	reg("sync.NewCond", func(fr *frame, a []value) value { return fr.i.newCond(fr, a[0]) })
 	reg("(*sync.Cond).Wait", func(fr *frame, a []value) value { return fr.i.condWait(fr, a[0].(*value)) })
 	reg("(*sync.Cond).Signal", func(fr *frame, a []value) value { return fr.i.condSignal(a[0].(*value), false) })
 	reg("(*sync.Cond).Broadcast", func(fr *frame, a []value) value { return fr.i.condSignal(a[0].(*value), true) })
